@@ -745,6 +745,11 @@ def run(ctx):
             elif isinstance(n, ast.Call) and isinstance(n.func, ast.Attribute) and n.func.attr in ("search", "match", "fullmatch", "findall", "finditer") \
                     and any(isinstance(x, ast.Name) and x.id in hays for a in n.args for x in ast.walk(a)):
                 needles = [a for a in n.args if not any(isinstance(x, ast.Name) and x.id in hays for x in ast.walk(a))] + ([n.func.value] if norm(n.func.value) != "re" else [])
+            elif isinstance(n, ast.Call) and isinstance(n.func, ast.Name) and n.func.id not in ("lower", "upper", "get_field", "isinstance", "str", "len", "type") \
+                    and isinstance(getattr(prog.resolve_expr(sel, n.func), "node", None), ast.FunctionDef) \
+                    and any(isinstance(x, ast.Name) and x.id in hays for a in list(n.args) + [k.value for k in n.keywords] for x in ast.walk(a)):
+                # the comparison moved into a helper of the module: what the helper is given besides the field value is what it can compare with
+                needles = [a for a in list(n.args) + [k.value for k in n.keywords] if not any(isinstance(x, ast.Name) and x.id in hays for x in ast.walk(a))]
             site = cfg12.node_of(n) if needles else None
             for nd in needles:
                 if isinstance(nd, ast.Constant) or norm(nd) in ("NONE_OBJECT", "string_types") or site is None or site.id not in live12:
